@@ -41,18 +41,24 @@ def session(ctx, sc, k):
             # from far right back to the columns around the window width, in one go
             b"A " + b"wide words and more " * 5 + b"\x1b$%d|" % (C + 1), b"$%d|" % (C + 1), b"$%d|" % C, b"$%d|" % (C + 2), b"$%d|" % (C - 1),
             b"$%d|" % (2 * C), b"$%d|" % (2 * C + 1), b"$0", b"$^", b"$%dh" % (C - 1), b"$%dh" % C, b"$%dh" % (C + 1)]
+    # one session in four edits a named file and splits, switches, swaps and closes windows (^W s j k x o c): the active window's
+    # rows, wherever they begin on the terminal, must be a repaint of its buffer
+    windows = k % 4 == 3 and R >= 8
+    wcmds = [b"\x17s", b"\x17j", b"\x17k", b"\x17x", b"\x17o", b"\x17c", b"\x17s", b"\x17j", b"\x17k"]
     for s in sc["steps"]:
         keys += txt(s["keys"]).encode("utf-8", "surrogateescape")
         if rng.random() < 0.3:
             keys += rng.choice(EXTRA)
         if rng.random() < 0.2:
             keys += rng.choice(wide)
-    return session_keys(ctx, keys, (R, C), sc["seed"])
+        if windows and rng.random() < 0.25:
+            keys += rng.choice(wcmds)
+    return session_keys(ctx, keys, (R, C), sc["seed"], args=["wfile"] if windows else ())
 
 
-def session_keys(ctx, keys, size, seed=0):
+def session_keys(ctx, keys, size, seed=0, args=()):
     R, C = size
-    recs, rc, err, to, work = run_vi(ctx, ["-v"], keys + b":q!\n", timeout=30,
+    recs, rc, err, to, work = run_vi(ctx, ["-v"] + list(args), keys + b":q!\n:q!\n", timeout=30,
                                      env_extra={"LINES": str(R), "COLUMNS": str(C), "NEATVI_VERIF_TTY": "1"})
     shutil.rmtree(work, True)
     out = [{"ev": "reset", "R": R, "C": C}]
@@ -68,13 +74,16 @@ def session_keys(ctx, keys, size, seed=0):
                 out.append({"ev": "tty", "ops": ttylex.lex(pend)})
                 pend = b""
             lb = r["bufs"][0]["lb"]
-            chk = 1 if (first or r["done"]) and r["w_cnt"] == 1 and "lines" in lb and not r["quit"] and r["opts"]["td"] == 0 else 0
-            out.append({"ev": "vi", "chk": chk, "lines": lines_of(lb) if "lines" in lb else [], "top": r["top"], "left": r["left"],
+            chk = 1 if (first or r["done"]) and r["w_cnt"] in (1, 2) and "lines" in lb and not r["quit"] and r["opts"]["td"] == 0 else 0
+            # two windows (vi_switch): the upper one has the rows [0, R/2), the lower one [R/2, R); each ends with its message row
+            beg = R // 2 if r["w_cnt"] == 2 and r.get("w_cur") == 1 else 0
+            out.append({"ev": "vi", "chk": chk, "beg": beg, "two": 1 if r["w_cnt"] == 2 else 0, "lines": lines_of(lb) if "lines" in lb else [], "top": r["top"], "left": r["left"],
                         "row": r["row"], "xcol": r["xcol"], "rows": r["rows"], "cols": r["cols"]})
             first = False
             nvi += 1
     complete = bool(recs) and recs[-1].get("ev") == "exit" and rc == 0
-    return {"recs": out, "complete": complete, "nvi": nvi, "keys": keys, "size": (R, C), "stderr": err[-1500:], "seed": seed}
+    return {"recs": out, "complete": complete, "nvi": nvi, "keys": keys, "size": (R, C), "stderr": err[-1500:], "seed": seed, "args": list(args),
+            "nvi2": sum(1 for x in out if x["ev"] == "vi" and x["chk"] and x.get("two"))}
 
 
 def validate_one(ctx, recs, tag):
@@ -100,7 +109,7 @@ def replay(ctx, r):
 
     def bad(k):
         n[0] += 1
-        s = session_keys(ctx, k, size)
+        s = session_keys(ctx, k, size, args=r.get("args") or ())
         return s["complete"] and validate_one(ctx, s["recs"], "r%d" % (n[0] % 16))
     v = bad(keys)
     print("violations:", json.dumps(v)[:600] if v else v)
@@ -108,7 +117,7 @@ def replay(ctx, r):
         import termemu
 
         def bad(k):        # search aid only: rows before and after a final redraw differ
-            s = session_keys(ctx, k + b"\x0c", size)
+            s = session_keys(ctx, k + b"\x0c", size, args=r.get("args") or ())
             return s["complete"] and termemu.stale_rows(s["recs"], *size)
         if not bad(keys):
             print("the redraw heuristic does not see it; not shrinking")
@@ -152,6 +161,7 @@ def main(ctx, args):
         shards[i % len(shards)] += s["recs"]
         index[i % len(shards)].append((i, len(s["recs"])))
         st["boundaries"] += s["nvi"]
+        st["two_window_boundaries"] = st.get("two_window_boundaries", 0) + s["nvi2"]
 
     def validate(k):
         f = ctx.path("trace", "t%d.ndjson" % k)
@@ -186,7 +196,7 @@ def main(ctx, args):
             ctx.violation("%s at a command boundary (window %sx%s, seed %s): %s" %
                           (x["what"], s and s["size"][0], s and s["size"][1], s and s["seed"], json.dumps(x["detail"])[:400]),
                           {"what": x["what"], "detail": x["detail"], "trace_line": x["line"], "window": s and s["size"],
-                           "keys_hex": s and s["keys"].hex(), "keys": s and s["keys"].decode("utf-8", "replace")},
+                           "keys_hex": s and s["keys"].hex(), "keys": s and s["keys"].decode("utf-8", "replace"), "args": s and s["args"]},
                           {"kind": x["what"]})
     # ---- where the window goes: scroll commands, H M L and edits in small windows against Vi!Scroll / Vi!WFix ----
     nscr = 48 if ctx.quick else 1200
